@@ -213,7 +213,8 @@ theorem C08_merge_exact (a : RObj) (rc : Bool) (o co : RObj) (cns cms cios cmis 
 
 /-- P0 restrict_wf (set clauses, whole call): SetsOK is preserved by level merging (hwloc fixes e57fd49 + 5bd7047: the child that
     replaces a parent with memory children takes over the parent's complete sets, so the parent's memory children stay inside their new
-    parent's complete sets) and therefore by the whole call -/
+    parent's complete sets; the final hwloc__reorder_children_if_needed pass of fix 244c8a8 only permutes siblings) and
+    therefore by the whole call -/
 theorem C08_merge_preserves_setsok (filters : List Nat) (t : Tree) (h : okT t = true) : okT (keepStructure filters t) = true :=
   ok_keepStructure filters t h
 
